@@ -196,6 +196,41 @@ func (r *rig) c08Wire() string {
 				sig(w.Parts), w.Fault, w.Err, n, sig(want), sig(retry.Parts))
 		}
 	}
+	// the leading parts the receiver reports as recorded (206 count, data-recovery answer) were
+	// accepted by the gate keeper - in this request or an earlier one
+	accepted := map[string][][2]int64{}
+	for _, w := range r.wire {
+		switch w.Kind {
+		case "data":
+			for _, p := range w.Received {
+				k := p.Name + " " + p.Hash
+				accepted[k] = append(accepted[k], [2]int64{p.Beg, p.End})
+			}
+			if w.Err != "" && w.N > len(w.Received) {
+				return fmt.Sprintf("C08: the receiver answered the request %s with count %d, but its gate keeper accepted only %v", sig(w.Parts), w.N, w.Received)
+			}
+		case "recovery":
+			if w.Err != "" {
+				continue
+			}
+			for i := 0; i < w.N && i < len(w.Parts); i++ {
+				p := w.Parts[i]
+				covered := false
+				pos := p.Beg
+				rs := append([][2]int64{}, accepted[p.Name+" "+p.Hash]...)
+				sort.Slice(rs, func(a, b int) bool { return rs[a][0] < rs[b][0] })
+				for _, x := range rs {
+					if x[0] <= pos && x[1] > pos {
+						pos = x[1]
+					}
+				}
+				covered = pos >= p.End
+				if !covered && r.finalFilesLocked()[p.Name] != p.Hash {
+					return fmt.Sprintf("C08: the data-recovery answer for %s says %d leading part(s) are recorded, but %s was never accepted by the gate keeper (accepted ranges of that file: %v)", sig(w.Parts), w.N, p, rs)
+				}
+			}
+		}
+	}
 	// sent-log / first poll only once every byte was acknowledged (or found held)
 	acks := r.ackedRangesLocked()
 	for _, w := range r.wire {
@@ -435,3 +470,5 @@ func (r *rig) c07Chain() string {
 	}
 	return ""
 }
+
+func (r *rig) finalFilesLocked() map[string]string { return r.finalFiles() }
